@@ -178,3 +178,16 @@ func VerifGetAt(db *DB, key []byte, ts uint64) (VEntry, bool, error) {
 func VerifIsDeletedOrExpired(meta byte, expiresAt uint64) bool {
 	return isDeletedOrExpired(meta, expiresAt)
 }
+
+// VerifWaitFlushed waits until the flusher goroutine has written every immutable memtable.
+func VerifWaitFlushed(db *DB) {
+	for {
+		db.lock.RLock()
+		n := len(db.imm)
+		db.lock.RUnlock()
+		if n == 0 {
+			return
+		}
+		time.Sleep(200 * time.Microsecond)
+	}
+}
